@@ -284,8 +284,16 @@ const ELEM_FAULTS: [&str; 4] = ["delete_element", "duplicate_element", "empty_el
 const ATTR_FAULTS: [&str; 3] = ["delete_attribute", "empty_attribute_value", "swap_attribute_values"];
 const TEXT_FAULTS: [&str; 2] = ["delete_text", "swap_text_with_next"];
 /// Odd but well-formed attribute values and text contents (content faults: the element stays, what it says changes).
-const ODD_VALUES: [&str; 9] = ["=!!p://h/p#i", "http://[::1", "#", " ", "\u{e9}\u{4e2d}", "0", "true", "a b:c", "xxxxxxxxxxxxxxxxxxxxxxxxxxxxxxxxxxxxxxxxxxxxxxxxxxxxxxxxxxxxxxxxxxxxxxxxxxxxxxxxxxxxxxxxxxxxxxxxxxxxxxxxxxxxxxxxxxxxxxxxxxxxxxxxxxxxxxxxxxxxxxxxxxxxxxxxxxxxxxxxxxxxxxxxxxxxxxxxxxxxxxxxxxxxxxxxxxxxxxxxxxxxxxxxxxxxxxxxxxxxxxxxxxxxxxxxxxxxxxxxxxxxxxxxxxxxxxxxxxxxxxxxxxxx"];
-const ODD_TEXTS: [&str; 8] = ["(", "1 / 0", "x y z", "[1..", "function() 1", "null", "\"unterminated", "-"];
+const ODD_VALUES: [&str; 11] = [
+  // long multi-byte values behind 0 and 1 ASCII bytes: whatever byte offset a size cap cuts at falls inside a character for one of them
+  "\u{e9}\u{4e2d}\u{1F600}\u{e9}\u{4e2d}\u{1F600}\u{e9}\u{4e2d}\u{1F600}\u{e9}\u{4e2d}\u{1F600}\u{e9}\u{4e2d}\u{1F600}\u{e9}\u{4e2d}\u{1F600}\u{e9}\u{4e2d}\u{1F600}\u{e9}\u{4e2d}\u{1F600}\u{e9}\u{4e2d}\u{1F600}\u{e9}\u{4e2d}\u{1F600}\u{e9}\u{4e2d}\u{1F600}\u{e9}\u{4e2d}\u{1F600}\u{e9}\u{4e2d}\u{1F600}\u{e9}\u{4e2d}\u{1F600}\u{e9}\u{4e2d}\u{1F600}\u{e9}\u{4e2d}\u{1F600}\u{e9}\u{4e2d}\u{1F600}\u{e9}\u{4e2d}\u{1F600}\u{e9}\u{4e2d}\u{1F600}\u{e9}\u{4e2d}\u{1F600}\u{e9}\u{4e2d}\u{1F600}\u{e9}\u{4e2d}\u{1F600}\u{e9}\u{4e2d}\u{1F600}\u{e9}\u{4e2d}\u{1F600}\u{e9}\u{4e2d}\u{1F600}\u{e9}\u{4e2d}\u{1F600}\u{e9}\u{4e2d}\u{1F600}\u{e9}\u{4e2d}\u{1F600}\u{e9}\u{4e2d}\u{1F600}\u{e9}\u{4e2d}\u{1F600}\u{e9}\u{4e2d}\u{1F600}\u{e9}\u{4e2d}\u{1F600}\u{e9}\u{4e2d}\u{1F600}\u{e9}\u{4e2d}\u{1F600}",
+  "a\u{e9}\u{4e2d}\u{1F600}\u{e9}\u{4e2d}\u{1F600}\u{e9}\u{4e2d}\u{1F600}\u{e9}\u{4e2d}\u{1F600}\u{e9}\u{4e2d}\u{1F600}\u{e9}\u{4e2d}\u{1F600}\u{e9}\u{4e2d}\u{1F600}\u{e9}\u{4e2d}\u{1F600}\u{e9}\u{4e2d}\u{1F600}\u{e9}\u{4e2d}\u{1F600}\u{e9}\u{4e2d}\u{1F600}\u{e9}\u{4e2d}\u{1F600}\u{e9}\u{4e2d}\u{1F600}\u{e9}\u{4e2d}\u{1F600}\u{e9}\u{4e2d}\u{1F600}\u{e9}\u{4e2d}\u{1F600}\u{e9}\u{4e2d}\u{1F600}\u{e9}\u{4e2d}\u{1F600}\u{e9}\u{4e2d}\u{1F600}\u{e9}\u{4e2d}\u{1F600}\u{e9}\u{4e2d}\u{1F600}\u{e9}\u{4e2d}\u{1F600}\u{e9}\u{4e2d}\u{1F600}\u{e9}\u{4e2d}\u{1F600}\u{e9}\u{4e2d}\u{1F600}\u{e9}\u{4e2d}\u{1F600}\u{e9}\u{4e2d}\u{1F600}\u{e9}\u{4e2d}\u{1F600}\u{e9}\u{4e2d}\u{1F600}\u{e9}\u{4e2d}\u{1F600}\u{e9}\u{4e2d}\u{1F600}\u{e9}\u{4e2d}\u{1F600}\u{e9}\u{4e2d}\u{1F600}\u{e9}\u{4e2d}\u{1F600}",
+  "=!!p://h/p#i", "http://[::1", "#", " ", "\u{e9}\u{4e2d}", "0", "true", "a b:c", "xxxxxxxxxxxxxxxxxxxxxxxxxxxxxxxxxxxxxxxxxxxxxxxxxxxxxxxxxxxxxxxxxxxxxxxxxxxxxxxxxxxxxxxxxxxxxxxxxxxxxxxxxxxxxxxxxxxxxxxxxxxxxxxxxxxxxxxxxxxxxxxxxxxxxxxxxxxxxxxxxxxxxxxxxxxxxxxxxxxxxxxxxxxxxxxxxxxxxxxxxxxxxxxxxxxxxxxxxxxxxxxxxxxxxxxxxxxxxxxxxxxxxxxxxxxxxxxxxxxxxxxxxxxx"];
+const ODD_DIAGRAM_VALUES: [&str; 5] = ["\u{e9}\u{4e2d}\u{1F600}\u{e9}\u{4e2d}\u{1F600}\u{e9}\u{4e2d}\u{1F600}\u{e9}\u{4e2d}\u{1F600}\u{e9}\u{4e2d}\u{1F600}", " ", "NaN", "-1e999", "1,5"];
+const ODD_TEXTS: [&str; 10] = [
+  "\u{e9}\u{4e2d}\u{1F600}\u{e9}\u{4e2d}\u{1F600}\u{e9}\u{4e2d}\u{1F600}\u{e9}\u{4e2d}\u{1F600}\u{e9}\u{4e2d}\u{1F600}\u{e9}\u{4e2d}\u{1F600}\u{e9}\u{4e2d}\u{1F600}\u{e9}\u{4e2d}\u{1F600}\u{e9}\u{4e2d}\u{1F600}\u{e9}\u{4e2d}\u{1F600}\u{e9}\u{4e2d}\u{1F600}\u{e9}\u{4e2d}\u{1F600}\u{e9}\u{4e2d}\u{1F600}\u{e9}\u{4e2d}\u{1F600}\u{e9}\u{4e2d}\u{1F600}\u{e9}\u{4e2d}\u{1F600}\u{e9}\u{4e2d}\u{1F600}\u{e9}\u{4e2d}\u{1F600}\u{e9}\u{4e2d}\u{1F600}\u{e9}\u{4e2d}\u{1F600}\u{e9}\u{4e2d}\u{1F600}\u{e9}\u{4e2d}\u{1F600}\u{e9}\u{4e2d}\u{1F600}\u{e9}\u{4e2d}\u{1F600}\u{e9}\u{4e2d}\u{1F600}\u{e9}\u{4e2d}\u{1F600}\u{e9}\u{4e2d}\u{1F600}\u{e9}\u{4e2d}\u{1F600}\u{e9}\u{4e2d}\u{1F600}\u{e9}\u{4e2d}\u{1F600}\u{e9}\u{4e2d}\u{1F600}\u{e9}\u{4e2d}\u{1F600}\u{e9}\u{4e2d}\u{1F600}\u{e9}\u{4e2d}\u{1F600}",
+  "\"a\u{e9}\u{4e2d}\u{1F600}\u{e9}\u{4e2d}\u{1F600}\u{e9}\u{4e2d}\u{1F600}\u{e9}\u{4e2d}\u{1F600}\u{e9}\u{4e2d}\u{1F600}\u{e9}\u{4e2d}\u{1F600}\u{e9}\u{4e2d}\u{1F600}\u{e9}\u{4e2d}\u{1F600}\u{e9}\u{4e2d}\u{1F600}\u{e9}\u{4e2d}\u{1F600}\u{e9}\u{4e2d}\u{1F600}\u{e9}\u{4e2d}\u{1F600}\u{e9}\u{4e2d}\u{1F600}\u{e9}\u{4e2d}\u{1F600}\u{e9}\u{4e2d}\u{1F600}\u{e9}\u{4e2d}\u{1F600}\u{e9}\u{4e2d}\u{1F600}\u{e9}\u{4e2d}\u{1F600}\u{e9}\u{4e2d}\u{1F600}\u{e9}\u{4e2d}\u{1F600}\u{e9}\u{4e2d}\u{1F600}\u{e9}\u{4e2d}\u{1F600}\u{e9}\u{4e2d}\u{1F600}\u{e9}\u{4e2d}\u{1F600}\u{e9}\u{4e2d}\u{1F600}\u{e9}\u{4e2d}\u{1F600}\u{e9}\u{4e2d}\u{1F600}\u{e9}\u{4e2d}\u{1F600}\u{e9}\u{4e2d}\u{1F600}\u{e9}\u{4e2d}\u{1F600}\u{e9}\u{4e2d}\u{1F600}\u{e9}\u{4e2d}\u{1F600}\u{e9}\u{4e2d}\u{1F600}\u{e9}\u{4e2d}\u{1F600}",
+  "(", "1 / 0", "x y z", "[1..", "function() 1", "null", "\"unterminated", "-"];
 
 /// All single structural faults of a base text: (kind, index, variant).
 fn single_faults(cat: &Catalogue) -> Vec<(String, usize, usize)> {
@@ -325,10 +333,15 @@ fn single_faults(cat: &Catalogue) -> Vec<(String, usize, usize)> {
       }
       out.push((f.to_string(), i, 0));
     }
-    // diagram attributes are never read: odd values there would only inflate the count
+    // diagram attributes (two thirds of all attributes) are numbers, colours and references: they
+    // get the odd values of those kinds only
     if !cat.attrs[i].owner_tag.starts_with("DMN") && cat.attrs[i].owner_tag != "Bounds" && cat.attrs[i].owner_tag != "waypoint" && cat.attrs[i].owner_tag != "Size" {
       for v in 0..ODD_VALUES.len() {
         out.push(("odd_attribute_value".to_string(), i, v));
+      }
+    } else {
+      for v in 0..ODD_DIAGRAM_VALUES.len() {
+        out.push(("odd_diagram_value".to_string(), i, v));
       }
     }
   }
@@ -395,6 +408,10 @@ fn edits_of(cat: &Catalogue, kind: &str, index: usize, variant: usize) -> Option
     "odd_attribute_value" => {
       let a = cat.attrs.get(index)?;
       Some((vec![(a.vstart, a.vend, ODD_VALUES[variant % ODD_VALUES.len()].as_bytes().to_vec())], format!("{}@{}", a.owner_tag, a.name)))
+    }
+    "odd_diagram_value" => {
+      let a = cat.attrs.get(index)?;
+      Some((vec![(a.vstart, a.vend, ODD_DIAGRAM_VALUES[variant % ODD_DIAGRAM_VALUES.len()].as_bytes().to_vec())], format!("{}@{}", a.owner_tag, a.name)))
     }
     "odd_text" => {
       let x = cat.texts.get(index)?;
@@ -1079,7 +1096,7 @@ impl Sim for C12 {
     parr(plan, "faults").iter().any(|f| edits_of(&catalogue(pstr(plan, "base")), pstr(f, "kind"), pu64(f, "index") as usize, pu64(f, "variant") as usize).is_none())
   }
   fn rule_text(&self) -> String {
-    "cases = (base model text, fault list): every single structural fault (delete / duplicate / empty / swap an element, delete / empty / swap attribute values, 9 odd values per model attribute, delete / swap text nodes, 8 odd contents per FEEL text and typeRef, retarget every href to a missing element, to its own owner and to each element requiring the owner within 3 steps, retarget item definition typeRefs to their own definition and to their referrers) at every position of every .dmn file under examples/src plus the simulator's models - all of them in the thorough tier, every reference fault plus a seeded one-in-3 stratified sample of the rest in the quick tier - then seeded pairs and storage faults (truncate, lost write, bit/burst flips, dropped/duplicated/swapped 64-byte blocks, foreign block spliced in, invalid UTF-8), then seeded cases through the directory-load and HTTP paths; distinct = distinct faulted texts (hash); non-trivial = the fault changed the text".to_string()
+    "cases = (base model text, fault list): every single structural fault (delete / duplicate / empty / swap an element, delete / empty / swap attribute values, 11 odd values per model attribute (two of them long multi-byte texts) and 5 per diagram attribute, delete / swap text nodes, 10 odd contents per FEEL text and typeRef, retarget every href to a missing element, to its own owner and to each element requiring the owner within 3 steps, retarget item definition typeRefs to their own definition and to their referrers) at every position of every .dmn file under examples/src plus the simulator's models - all of them in the thorough tier, every reference fault plus a seeded one-in-3 stratified sample of the rest in the quick tier - then seeded pairs and storage faults (truncate, lost write, bit/burst flips, dropped/duplicated/swapped 64-byte blocks, foreign block spliced in, invalid UTF-8), then seeded cases through the directory-load and HTTP paths; distinct = distinct faulted texts (hash); non-trivial = the fault changed the text".to_string()
   }
   fn assumptions(&self) -> Vec<String> {
     vec![
